@@ -40,9 +40,17 @@ impl SystemTime {
 }
 pub mod chrono {
     use super::*;
-    pub trait TimeZone {}
+    /// a zone has a UTC offset (for a fixed-offset zone a constant; any value here); Utc has offset 0
+    pub trait TimeZone { spec fn offset_secs(&self) -> int; }
     pub struct Utc {}
-    impl TimeZone for Utc {}
+    impl TimeZone for Utc { open spec fn offset_secs(&self) -> int { 0 } }
+    /// chrono::NaiveDateTime: a wall-clock reading without a zone
+    pub struct NaiveDateTime { pub secs: i64, pub nanos: u32 }
+    impl NaiveDateTime {
+        /// chrono: "Converts the NaiveDateTime into the timezone-aware DateTime<Utc>" (the reading is taken as UTC)
+        #[verifier::external_body]
+        pub fn and_utc(&self) -> (r: DateTime<Utc>) ensures r.secs == self.secs, r.nanos == self.nanos { unimplemented!() }
+    }
     /// an instant (zone-independent) plus a zone used only for display
     pub struct DateTime<TZ: TimeZone> { pub secs: i64, pub nanos: u32, pub tz: TZ }
     impl<TZ: TimeZone> DateTime<TZ> {
@@ -54,6 +62,11 @@ pub mod chrono {
         pub fn with_timezone(&self, tz: &Utc) -> (r: DateTime<Utc>)
             ensures r.secs == self.secs, r.nanos == self.nanos,
         { unimplemented!() }
+        /// chrono: "Returns a view to the naive UTC datetime" / "... naive local datetime" (= UTC reading + zone offset)
+        #[verifier::external_body]
+        pub fn naive_utc(&self) -> (r: NaiveDateTime) ensures r.secs == self.secs, r.nanos == self.nanos { unimplemented!() }
+        #[verifier::external_body]
+        pub fn naive_local(&self) -> (r: NaiveDateTime) ensures r.secs as int == self.secs + self.tz.offset_secs(), r.nanos == self.nanos { unimplemented!() }
         /// chrono: "Returns the number of non-leap seconds since January 1, 1970 0:00:00 UTC"
         /// (floor: instants before the epoch give negative values)
         #[verifier::external_body]
@@ -134,8 +147,8 @@ pub fn canary_c20(a: SystemTime)
 ] + TAIL
 
 OBLIGATIONS = {
-    'Timestamp::try_from_system_time': ['C20'],
-    'Timestamp::try_from_chrono': ['C20'],
+    'Timestamp::try_from_system_time': ['C20', 'C11'],   # C11: the source date given to the builder / signer is converted exactly
+    'Timestamp::try_from_chrono': ['C20', 'C11'],
     'c20_monotone': ['C20'],
 }
 CANARIES = ['canary_c20']
